@@ -511,8 +511,8 @@ func runOne(w *vh.Writer, sc Schedule, seed int64, randomSteps int, withClose bo
 	// in half of the runs the last caller is kept for a probe after the walk: a call started once everything else has settled,
 	// the servers then answering the oldest pending request first (the pattern that delivers a stale response to a later call)
 	walkCallers, cancelledSome := maxCallers, false
-	if seed%4 >= 2 {
-		walkCallers = maxCallers - 1
+	if seed%4 >= 2 || randomSteps == 0 {
+		walkCallers = maxCallers - 1 // (runs that follow a TLC schedule always end with the probe call)
 	}
 	for step := 0; step < randomSteps; step++ {
 		parked := wd.releasable()
@@ -552,7 +552,7 @@ func runOne(w *vh.Writer, sc Schedule, seed int64, randomSteps int, withClose bo
 	}
 	// drain: the servers answer what they can, then go away; everything runs out
 	w.Emit(map[string]any{"ev": "note", "what": "drain"})
-	if walkCallers < maxCallers && (cancelledSome || seed%8 >= 6) {
+	if walkCallers < maxCallers && (cancelledSome || seed%8 >= 6 || randomSteps == 0) {
 		wd.env("StartCall", maxCallers, 0)
 	}
 	for guard := 0; guard < 3000; guard++ {
